@@ -679,6 +679,13 @@ func psCorpus() [][]psStep {
 		{{0, psMsg{Kind: "m1"}}, {0, badA2}, {0, nilM5}},
 		{{0, psMsg{Kind: "m1"}}, {0, badA}, {0, psMsg{Kind: "badstate", N: 9}}, {0, zeroM5}},
 		{{0, psMsg{Kind: "m1"}}, {0, wrong}, {0, zeroM5}},
+		// … and after an ACCEPTED proof followed by a request the handler refuses (unknown step, unknown method): whatever the
+		// refusal does to the secrets of the exchange, a key exchange anybody can make is not stored
+		{{0, psMsg{Kind: "m1"}}, {0, validM3(0, 0)}, {0, psMsg{Kind: "badstate", N: 7}}, {0, zeroM5n}},
+		{{0, psMsg{Kind: "m1"}}, {0, validM3(0, 0)}, {0, psMsg{Kind: "badstate", N: 7}}, {0, nilM5n}},
+		{{0, psMsg{Kind: "m1"}}, {0, validM3(0, 0)}, {0, psMsg{Kind: "badmethod"}}, {0, zeroM5n}},
+		{{0, psMsg{Kind: "m1"}}, {0, validM3(0, 0)}, {0, psMsg{Kind: "badmethod"}}, {0, nilM5n}},
+		{{0, psMsg{Kind: "m1"}}, {0, validM3(0, 0)}, {0, psMsg{Kind: "malformed"}}, {0, zeroM5n}},
 		{{0, psMsg{Kind: "m1"}}, {0, validM3(0, 0)}, {0, genuineM5(0, 0, 7, 9)}},
 		{{0, psMsg{Kind: "m1"}}, {0, validM3(0, 0)}, {0, genuineM5(0, 0, 7, 9)}, {0, genuineM5(0, 0, 8, 9)}},
 		{{0, psMsg{Kind: "m1"}}, {0, validM3(0, 0)}, {0, psMsg{Kind: "m1"}}, {0, genuineM5(0, 0, 7, 9)}},
@@ -825,6 +832,11 @@ func checkC02(c *Ctx) {
 			}
 			if pm != "" {
 				c.Violate("pair-setup handler panics", cs.id, hist, "response", pm)
+			}
+			if f := strings.Fields(obs); len(f) >= 5 && f[0] == "tlv" && f[2] != "-" && f[4] == "1" {
+				// the accessory's proof H(A | M1 | K) in an answer that REFUSES the controller's proof: whoever sent a wrong proof
+				// can now try setup codes offline until one explains that value
+				c.Violate("pair-setup answers a refused proof with the accessory's own proof (an offline oracle for the setup code)", cs.id, hist, "an error without a proof item", obs)
 			}
 			for _, sv := range saves {
 				a := accepted[s.Conn]
